@@ -25,10 +25,6 @@ func ExtractWalk(c *Ctx, name string) (*Sibling, error) {
 		if f.Recv != nil || f.Body == nil || len(f.Body.List) != 1 || f.Type.Params == nil {
 			continue
 		}
-		rs, ok := f.Body.List[0].(*ast.RangeStmt)
-		if !ok || len(rs.Body.List) != 1 {
-			continue
-		}
 		// params: (v Visitor, list []T)
 		var params []types.Object
 		for _, p := range f.Type.Params.List {
@@ -39,28 +35,12 @@ func ExtractWalk(c *Ctx, name string) (*Sibling, error) {
 		if len(params) != 2 {
 			continue
 		}
-		xid, ok := rs.X.(*ast.Ident)
+		listExpr, ok := listWalkLoop(c, f.Body.List[0], pkgPath, params[0])
+		if !ok {
+			continue
+		}
+		xid, ok := listExpr.(*ast.Ident)
 		if !ok || c.ObjOf(xid) != params[1] {
-			continue
-		}
-		if kid, ok := rs.Key.(*ast.Ident); rs.Key != nil && (!ok || kid.Name != "_") {
-			continue
-		}
-		vid, ok := rs.Value.(*ast.Ident)
-		if !ok {
-			continue
-		}
-		es, ok := rs.Body.List[0].(*ast.ExprStmt)
-		if !ok {
-			continue
-		}
-		call, ok := es.X.(*ast.CallExpr)
-		if !ok || len(call.Args) != 2 || !IsFunc(c.Callee(call), pkgPath, "Walk") {
-			continue
-		}
-		a0, ok0 := call.Args[0].(*ast.Ident)
-		a1, ok1 := call.Args[1].(*ast.Ident)
-		if !ok0 || !ok1 || c.ObjOf(a0) != params[0] || c.ObjOf(a1) != c.Info.Defs[vid] {
 			continue
 		}
 		if fn, ok := c.Info.Defs[f.Name].(*types.Func); ok {
@@ -144,20 +124,33 @@ func (x *walkX) stmt(s ast.Stmt, g gctx) {
 			x.stmt(el, g.with(cond, true))
 		}
 	case *ast.RangeStmt:
+		if listExpr, ok := listWalkLoop(c, s, x.pkg, x.v); ok {
+			if p, okp := c.Path(listExpr, x.n); okp && p != "" {
+				x.emit(Event{Kind: KList, Src: p, Field: p}, g, s.Pos())
+				return
+			}
+		}
+		// a map of children (Package.Files)
 		if p, ok := c.Path(s.X, x.n); ok && len(s.Body.List) == 1 {
-			if vid, ok := s.Value.(*ast.Ident); ok {
-				if es, ok := s.Body.List[0].(*ast.ExprStmt); ok {
-					if call, ok := es.X.(*ast.CallExpr); ok && len(call.Args) == 2 && x.isV(call.Args[0]) && IsFunc(c.Callee(call), x.pkg, "Walk") {
-						if aid, ok := call.Args[1].(*ast.Ident); ok && c.ObjOf(aid) == c.Info.Defs[vid] {
-							kind := KList
-							if _, isMap := c.Info.TypeOf(s.X).Underlying().(*types.Map); isMap {
-								kind = KMap
+			if _, isMap := c.Info.TypeOf(s.X).Underlying().(*types.Map); isMap {
+				if vid, ok := s.Value.(*ast.Ident); ok {
+					if es, ok := s.Body.List[0].(*ast.ExprStmt); ok {
+						if call, ok := es.X.(*ast.CallExpr); ok && len(call.Args) == 2 && x.isV(call.Args[0]) && IsFunc(c.Callee(call), x.pkg, "Walk") {
+							if aid, ok := call.Args[1].(*ast.Ident); ok && c.ObjOf(aid) == c.Info.Defs[vid] {
+								x.emit(Event{Kind: KMap, Src: p, Field: p}, g, s.Pos())
+								return
 							}
-							x.emit(Event{Kind: kind, Src: p, Field: p}, g, s.Pos())
-							return
 						}
 					}
 				}
+			}
+		}
+		x.other(s, g)
+	case *ast.ForStmt:
+		if listExpr, ok := listWalkLoop(c, s, x.pkg, x.v); ok {
+			if p, okp := c.Path(listExpr, x.n); okp && p != "" {
+				x.emit(Event{Kind: KList, Src: p, Field: p}, g, s.Pos())
+				return
 			}
 		}
 		x.other(s, g)
@@ -167,6 +160,119 @@ func (x *walkX) stmt(s ast.Stmt, g gctx) {
 	default:
 		x.other(s, g)
 	}
+}
+
+// listWalkLoop: st walks every element of a slice once, in order, and does nothing else:
+//
+//	for _, x := range L { Walk(v, x) }            for i := range L { Walk(v, L[i]) }
+//	for i := 0; i < len(L); i++ { Walk(v, L[i]) }  for i, n := 0, len(L); i < n; i++ { Walk(v, L[i]) }
+//
+// It returns L.
+func listWalkLoop(c *Ctx, st ast.Stmt, pkgPath string, v types.Object) (ast.Expr, bool) {
+	walkOf := func(body *ast.BlockStmt) (ast.Expr, bool) {
+		if len(body.List) != 1 {
+			return nil, false
+		}
+		es, ok := body.List[0].(*ast.ExprStmt)
+		if !ok {
+			return nil, false
+		}
+		call, ok := es.X.(*ast.CallExpr)
+		if !ok || len(call.Args) != 2 || !IsFunc(c.Callee(call), pkgPath, "Walk") {
+			return nil, false
+		}
+		a0, ok := call.Args[0].(*ast.Ident)
+		if !ok || v == nil || c.ObjOf(a0) != v {
+			return nil, false
+		}
+		return call.Args[1], true
+	}
+	switch s := st.(type) {
+	case *ast.RangeStmt:
+		arg, ok := walkOf(s.Body)
+		if !ok {
+			return nil, false
+		}
+		if _, isMap := c.Info.TypeOf(s.X).Underlying().(*types.Map); isMap {
+			return nil, false
+		}
+		// value form
+		if vid, ok := s.Value.(*ast.Ident); ok {
+			if kid, isID := s.Key.(*ast.Ident); s.Key != nil && (!isID || kid.Name != "_") {
+				return nil, false
+			}
+			if aid, ok := arg.(*ast.Ident); ok && c.ObjOf(aid) == c.Info.Defs[vid] {
+				return s.X, true
+			}
+			return nil, false
+		}
+		// key form
+		if kid, ok := s.Key.(*ast.Ident); ok && s.Value == nil {
+			if ix, ok := arg.(*ast.IndexExpr); ok && c.ExprStr(ix.X) == c.ExprStr(s.X) {
+				if iid, ok := ix.Index.(*ast.Ident); ok && c.ObjOf(iid) == c.Info.Defs[kid] {
+					return s.X, true
+				}
+			}
+		}
+	case *ast.ForStmt:
+		arg, ok := walkOf(s.Body)
+		if !ok || s.Init == nil || s.Cond == nil || s.Post == nil {
+			return nil, false
+		}
+		ix, ok := arg.(*ast.IndexExpr)
+		if !ok {
+			return nil, false
+		}
+		iid, ok := ix.Index.(*ast.Ident)
+		if !ok {
+			return nil, false
+		}
+		iObj := c.ObjOf(iid)
+		list := c.ExprStr(ix.X)
+		// init: i := 0  |  i, n := 0, len(L)
+		init, ok := s.Init.(*ast.AssignStmt)
+		if !ok || init.Tok != token.DEFINE || len(init.Lhs) != len(init.Rhs) || len(init.Lhs) > 2 {
+			return nil, false
+		}
+		id0, ok := init.Lhs[0].(*ast.Ident)
+		if !ok || c.Info.Defs[id0] != iObj || c.ExprStr(init.Rhs[0]) != "0" {
+			return nil, false
+		}
+		bound := "len(" + list + ")"
+		var nObj types.Object
+		if len(init.Lhs) == 2 {
+			id1, ok := init.Lhs[1].(*ast.Ident)
+			if !ok || c.ExprStr(init.Rhs[1]) != bound {
+				return nil, false
+			}
+			nObj = c.Info.Defs[id1]
+		}
+		// cond: i < len(L) | i < n
+		be, ok := s.Cond.(*ast.BinaryExpr)
+		if !ok || be.Op != token.LSS {
+			return nil, false
+		}
+		if l, ok := be.X.(*ast.Ident); !ok || c.ObjOf(l) != iObj {
+			return nil, false
+		}
+		okBound := c.ExprStr(be.Y) == bound
+		if rid, ok := be.Y.(*ast.Ident); ok && nObj != nil && c.ObjOf(rid) == nObj {
+			okBound = true
+		}
+		if !okBound {
+			return nil, false
+		}
+		// post: i++
+		inc, ok := s.Post.(*ast.IncDecStmt)
+		if !ok || inc.Tok != token.INC {
+			return nil, false
+		}
+		if l, ok := inc.X.(*ast.Ident); !ok || c.ObjOf(l) != iObj {
+			return nil, false
+		}
+		return ix.X, true
+	}
+	return nil, false
 }
 
 func (x *walkX) other(s ast.Stmt, g gctx) {
